@@ -9,10 +9,10 @@ import (
 	"path/filepath"
 	"time"
 
-	quic "github.com/sheerbytes/sheerbytes/internal/verif/venv/vquic"
 	"github.com/sheerbytes/sheerbytes/internal/transfer"
-	vrt "github.com/sheerbytes/sheerbytes/internal/verif/vrt"
+	quic "github.com/sheerbytes/sheerbytes/internal/verif/venv/vquic"
 	"github.com/sheerbytes/sheerbytes/internal/verif/vlib"
+	vrt "github.com/sheerbytes/sheerbytes/internal/verif/vrt"
 	"github.com/sheerbytes/sheerbytes/pkg/manifest"
 )
 
@@ -227,7 +227,11 @@ func modeC02R() {
 	}
 	for _, streams := range []int{1, 2} {
 		for _, resume := range []bool{true, false} {
-			jobs = append(jobs, job{AbortCase{Streams: streams, Prefix: len(c02rSteps(streams)), Abort: "patient", Resume: resume}, 2})
+			b := 2
+			if streams == 2 && !thorough {
+				b = 1
+			}
+			jobs = append(jobs, job{AbortCase{Streams: streams, Prefix: len(c02rSteps(streams)), Abort: "patient", Resume: resume}, b})
 		}
 	}
 	for i, j := range jobs {
